@@ -2,6 +2,7 @@
     Thm/Sigma.v.  Every theorem is for an arbitrary field [F] (hence the
     reals), an arbitrary number of layers [K] and arbitrary boundaries. *)
 From Dino Require Import Base.Ops Base.Sums Base.Inst Base.Ord Model.Sigma Thm.Sigma.
+From Dino Require Import Model.ArrDSL Gen.SigmaSrc Thm.SigmaSrc.
 From Coq Require Import Reals Qcanon Lra.
 Local Open Scope F_scope.
 
@@ -88,6 +89,74 @@ Proof.
   - vm_compute. reflexivity.
 Qed.
 
+(** The model is the source: every array program of dinosaur/sigma_coordinates.py along the
+    vertical axis, transcribed from the AST on every run (Gen/SigmaSrc.v, tools/translate/gen_sigma.py)
+    into the array DSL of Model/ArrDSL.v, has the lengths and the entries of the hand-written
+    Model/Sigma.v, for every layer count, boundaries, column, velocities, cumsum method, direction
+    and default / explicit boundary values.  [ls] is the table log(centers).
+    (The two validity tests of __init__ need the order axioms: see C13_init_is_source.) *)
+Theorem C13_model_is_source {F : Type} {o : Ops F} {Fc : FieldC o}
+    (K : nat) (bf xf wf ls : nat -> F) (flog : F -> F) (dot downward : bool) (wbv dbv : option (F * F)) (y : arr F) :
+  let b : arr F := (S K, bf) in let x : arr F := (K, xf) in let w : arr F := ((K - 1)%nat, wf) in
+  (0 < K)%nat -> (forall k, (k < K)%nat -> flog (centers bf k) = ls k) ->
+  (fst (internal_boundaries_src b) = (K - 1)%nat /\
+   forall k, (k < K - 1)%nat -> snd (internal_boundaries_src b) k = bf (S k)) /\
+  (fst (centers_src b) = K /\ forall k, (k < K)%nat -> snd (centers_src b) k = centers bf k) /\
+  (fst (layer_thickness_src b) = K /\ forall k, (k < K)%nat -> snd (layer_thickness_src b) k = thickness bf k) /\
+  (fst (center_to_center_src b) = (K - 1)%nat /\
+   forall k, (k < K - 1)%nat -> snd (center_to_center_src b) k = c2c bf k) /\
+  layers_src b = K /\
+  (centered_difference_accepts_src y b = Nat.eqb K (fst y) /\
+   cumulative_sigma_integral_accepts_src y b = Nat.eqb K (fst y) /\
+   sigma_integral_accepts_src y b = Nat.eqb K (fst y) /\
+   cumulative_log_sigma_integral_accepts_src y b = Nat.eqb K (fst y)) /\
+  (fst (centered_difference_src x b) = (K - 1)%nat /\
+   forall k, (k < K - 1)%nat -> snd (centered_difference_src x b) k = centered_difference bf xf k) /\
+  (fst (cumulative_sigma_integral_src dot downward x b) = K /\
+   forall j, (j < K)%nat ->
+     snd (cumulative_sigma_integral_src dot downward x b) j = cum_sigma_integral dot downward K bf xf j) /\
+  sigma_integral_src x b = sigma_integral K bf xf /\
+  (fst (centered_vertical_advection_src w x b wbv dbv) = K /\
+   forall n, (n < K)%nat ->
+     snd (centered_vertical_advection_src w x b wbv dbv) n
+     = centered_vertical_advection K bf wf xf (fst (bv_or wbv (0, 0))) (snd (bv_or wbv (0, 0)))
+                                   (fst (bv_or dbv (0, 0))) (snd (bv_or dbv (0, 0))) n) /\
+  (fst (cumulative_log_sigma_integral_src flog dot downward x b) = K /\
+   forall j, (j < K)%nat ->
+     snd (cumulative_log_sigma_integral_src flog dot downward x b) j
+     = cum_log_sigma_integral dot downward K ls xf j) /\
+  (fst (upwind_vertical_advection_src w x b) = K /\
+   forall n, (n < K)%nat ->
+     snd (upwind_vertical_advection_src w x b) n = upwind_vertical_advection K bf wf xf n).
+Proof.
+  intros b x w HK Hls.
+  split; [exact (internal_boundaries_matches K bf)|].
+  split; [exact (centers_matches K bf)|].
+  split; [exact (layer_thickness_matches K bf)|].
+  split; [exact (center_to_center_matches K bf)|].
+  split; [exact (layers_matches K bf)|].
+  split; [exact (guards_match K bf y)|].
+  split; [exact (centered_difference_matches K bf xf)|].
+  split; [exact (cumulative_sigma_integral_matches K bf xf dot downward)|].
+  split; [exact (sigma_integral_matches K bf xf)|].
+  split; [exact (centered_vertical_advection_matches K bf xf wf wbv dbv HK)|].
+  split; [exact (cumulative_log_sigma_integral_matches K bf xf flog ls dot downward Hls)|].
+  exact (upwind_vertical_advection_matches K bf xf wf HK).
+Qed.
+
+(** the two validity tests of SigmaCoordinates.__init__, transcribed over an abstract [isclose]
+    whose uses with targets 0 and 1 are the tolerance tests, are the acceptance predicate of the model *)
+Theorem C13_init_is_source {F : Type} {o : Ops F} {Oc : OrdFieldC o}
+    (isclose : F -> F -> bool) (tol0 tol1 : F) K (bf : nat -> F) :
+  (forall a, isclose a 0 = fleb (fabs a) tol0) ->
+  (forall a, isclose a 1 = fleb (fabs (a - 1)) tol1) ->
+  init_accepts_src isclose (S K, bf) = sigma_accepts tol0 tol1 K bf.
+Proof. exact (init_accepts_matches isclose tol0 tol1 K bf). Qed.
+
+(** the translator understood every statement it is meant to transcribe (fail closed) *)
+Theorem C13_gen_sigma_complete : gen_sigma_ok = true.
+Proof. reflexivity. Qed.
+
 Print Assumptions C13_cumint_last_is_total.
 Print Assumptions C13_down_plus_up.
 Print Assumptions C13_cumsum_methods_agree.
@@ -98,3 +167,6 @@ Print Assumptions C13_geo_sparse_eq_dense.
 Print Assumptions C13_rejects_bad_levels.
 Print Assumptions C13_rejects_bad_levels_R.
 Print Assumptions C13_hyps_satisfiable.
+Print Assumptions C13_model_is_source.
+Print Assumptions C13_gen_sigma_complete.
+Print Assumptions C13_init_is_source.
